@@ -218,7 +218,9 @@ def conditions(tier):
                 continue
             if edit == "meta_value" and sk in ("list", "dict", "cyc2") and tier == "quick":
                 continue
-            conds.append({"name": f"neutral/{sk}/{edit}", "func": "neutral", "shard": {"sk": sk, "edit": edit, "lens": [1] * nstr, "fixed_sels": [1] * 8, "small_ints": 2}, "timeout": tmo})
+            # optional positions left unset when the edit needs a free slot
+            fs = [0] * 8 if edit in ("explicit_none", "meta_subconfig", "meta_subconfig_content") else [1] * 8
+            conds.append({"name": f"neutral/{sk}/{edit}", "func": "neutral", "shard": {"sk": sk, "edit": edit, "lens": [1] * nstr, "fixed_sels": fs, "small_ints": 2}, "timeout": tmo})
     for sk in ("taskself", "taskout", "tasklist"):
         for sv in ("workspace", "launcher"):
             conds.append({"name": f"neutral/{sk}/submit-{sv}", "func": "neutral", "shard": {"sk": sk, "edit": "none", "submit_variant": sv, "small_ints": 2}, "timeout": tmo})
